@@ -12,10 +12,10 @@ echo "== $P patch: $(grep -c '^[-+][^-+]' $O/patch.diff) changed lines in $(git 
 echo "== suite with change"; cargo test --offline 2>&1 | grep -E "^test result|^error|warning: unused" 
 cp $O/demo.rs $W/tests/zz_demo.rs
 echo "== demo with change $FLAGS (expect failures)"; cargo test --offline $FLAGS --test zz_demo 2>&1 | grep -E "^test result|^error" 
-git stash -q
+git apply -R $O/patch.diff   # (not `git stash`: the stash is shared by all worktrees of one repository)
 cp $O/demo.rs $W/tests/zz_demo.rs
 echo "== demo without change $FLAGS (expect ok)"; cargo test --offline $FLAGS --test zz_demo 2>&1 | grep -E "^test result|^error"
 rm -f $W/tests/zz_demo.rs
-git stash pop -q
+git apply $O/patch.diff
 rm -rf $W/target
 git status --short | head -5
